@@ -862,12 +862,25 @@ func (t *fnTrans) ret(x *ssa.Return) {
 				lb = fmt.Sprintf("%s.%d", label, pi+1)
 				desc = "ensures (part) " + exprString(pe)
 			}
-			ob := t.oblig("post", x, lb, f, desc)
-			if ob != nil {
-				ob.Tags = cl.Tags
-				ob.Known = cl.Known
-				ob.Clause = cl
-				ob.Part = pe
+			// a return block reached over several edges: one obligation per incoming edge
+			// (fixes which of the merged heap versions is current; much easier for the solvers)
+			guards := []string{t.guard()}
+			suffix := []string{""}
+			if inc := t.incomingEdges(x.Block()); len(inc) > 1 && strings.Contains(f, "(forall ") {
+				guards, suffix = nil, nil
+				for _, e := range inc {
+					guards = append(guards, e.edge)
+					suffix = append(suffix, fmt.Sprintf("@b%d", e.pred))
+				}
+			}
+			for gi, g := range guards {
+				ob := t.obligG("post", x, lb+suffix[gi], g, f, desc)
+				if ob != nil {
+					ob.Tags = cl.Tags
+					ob.Known = cl.Known
+					ob.Clause = cl
+					ob.Part = pe
+				}
 			}
 		}
 	}
@@ -941,15 +954,102 @@ func (t *fnTrans) frameCheck(x *ssa.Return, env *specEnv) {
 		}
 		f := imp(and(le("1", r), le(r, top0), not(or(excl...))), same)
 		if strings.HasPrefix(hn, "C.") || strings.HasPrefix(hn, "F.") || strings.HasPrefix(hn, "B.") {
-			// globals (negative refs) count as pre-existing too
-			f = imp(and(le(r, top0), not(eq(r, "0")), not(or(excl...))), same)
+			// pre-existing: allocated objects, globals (small negative refs), and sub-objects of pre-existing objects
+			base := "(subobj_base " + r + ")"
+			isOld := or(and(le("1", r), le(r, top0)),
+				and(lt(r, "0"), lt("(- 1000000)", r)),
+				and(le(r, "(- 1000000)"), eq(r, "(subobj "+base+" (subobj_idx "+r+"))"), or(and(le("1", base), le(base, top0)), lt(base, "0"))))
+			f = imp(and(isOld, not(or(excl...))), same)
 		}
-		t.oblig("frame", x, hn, f, "only declared locations of "+hn+" are modified")
+		if inc := t.incomingEdges(x.Block()); len(inc) > 1 {
+			for _, e := range inc {
+				t.obligG("frame", x, fmt.Sprintf("%s@b%d", hn, e.pred), e.edge, f, "only declared locations of "+hn+" are modified")
+			}
+		} else {
+			t.oblig("frame", x, hn, f, "only declared locations of "+hn+" are modified")
+		}
 	}
 }
 
 // splitConj splits  A ==> (B && C)  into  A ==> B,  A ==> C  (and top-level conjunctions likewise).
+// splitMacros lets splitConj look through //@ define macros (set by the engine).
+var splitMacros func(name string) (params []string, body ast.Expr)
+
+// substIdents returns a copy of x with identifiers replaced.
+func substIdents(x ast.Expr, m map[string]ast.Expr) ast.Expr {
+	switch n := x.(type) {
+	case *ast.Ident:
+		if r, ok := m[n.Name]; ok {
+			return r
+		}
+		return n
+	case *ast.ParenExpr:
+		return &ast.ParenExpr{X: substIdents(n.X, m)}
+	case *ast.SelectorExpr:
+		return &ast.SelectorExpr{X: substIdents(n.X, m), Sel: n.Sel}
+	case *ast.IndexExpr:
+		return &ast.IndexExpr{X: substIdents(n.X, m), Index: substIdents(n.Index, m)}
+	case *ast.SliceExpr:
+		r := &ast.SliceExpr{X: substIdents(n.X, m)}
+		if n.Low != nil {
+			r.Low = substIdents(n.Low, m)
+		}
+		if n.High != nil {
+			r.High = substIdents(n.High, m)
+		}
+		return r
+	case *ast.StarExpr:
+		return &ast.StarExpr{X: substIdents(n.X, m)}
+	case *ast.UnaryExpr:
+		return &ast.UnaryExpr{Op: n.Op, X: substIdents(n.X, m)}
+	case *ast.BinaryExpr:
+		return &ast.BinaryExpr{X: substIdents(n.X, m), Op: n.Op, Y: substIdents(n.Y, m)}
+	case *ast.CallExpr:
+		r := &ast.CallExpr{Fun: substIdents(n.Fun, m)}
+		for _, a := range n.Args {
+			r.Args = append(r.Args, substIdents(a, m))
+		}
+		return r
+	case *ast.FuncLit:
+		// bound variable shadows
+		m2 := map[string]ast.Expr{}
+		for k, v := range m {
+			m2[k] = v
+		}
+		for _, f := range n.Type.Params.List {
+			for _, nm := range f.Names {
+				delete(m2, nm.Name)
+			}
+		}
+		var stmts []ast.Stmt
+		for _, st := range n.Body.List {
+			if rs, ok := st.(*ast.ReturnStmt); ok {
+				var res []ast.Expr
+				for _, e := range rs.Results {
+					res = append(res, substIdents(e, m2))
+				}
+				stmts = append(stmts, &ast.ReturnStmt{Results: res})
+			} else {
+				stmts = append(stmts, st)
+			}
+		}
+		return &ast.FuncLit{Type: n.Type, Body: &ast.BlockStmt{List: stmts}}
+	}
+	return x
+}
+
 func splitConj(x ast.Expr) []ast.Expr {
+	if ce, ok := x.(*ast.CallExpr); ok && splitMacros != nil {
+		if id, ok := ce.Fun.(*ast.Ident); ok {
+			if params, body := splitMacros(id.Name); body != nil && len(params) == len(ce.Args) {
+				m := map[string]ast.Expr{}
+				for i, p := range params {
+					m[p] = ce.Args[i]
+				}
+				return splitConj(substIdents(body, m))
+			}
+		}
+	}
 	switch n := x.(type) {
 	case *ast.ParenExpr:
 		return splitConj(n.X)
@@ -984,6 +1084,29 @@ func splitConj(x ast.Expr) []ast.Expr {
 		}
 	}
 	return []ast.Expr{x}
+}
+
+type incEdge struct {
+	edge string
+	pred int
+}
+
+// incomingEdges lists the (translated, non-back) edges into block b.
+func (t *fnTrans) incomingEdges(b *ssa.BasicBlock) []incEdge {
+	var out []incEdge
+	for _, p := range b.Preds {
+		if t.isBackEdge(p, b) {
+			continue
+		}
+		for k, s := range p.Succs {
+			if s == b {
+				if e, ok := t.edges[[2]int{p.Index*4 + k, b.Index}]; ok {
+					out = append(out, incEdge{e, p.Index})
+				}
+			}
+		}
+	}
+	return out
 }
 
 func sortStrings(s []string) {
